@@ -194,9 +194,16 @@ def run(ctx, vlib):
                 rec["implementation"] = vlib.run_driver(impls.get(k, impls[256]), [small], jobs=1)[0]
                 rec["model"] = vlib.run_driver(model, [small], jobs=1)[0]
     samples = [dict(case=cases[i][:300], implementation=oi[i][:300], model=om[i][:300]) for i in (0, len(cases) // 2, len(cases) - 1)]
-    return dict(evaluations=len(cases) + len(jl), distinct_nontrivial=nontriv, samples=samples, classes=classes,
+    # document level, MsgPack: the same read sequences from memory and from a stream (coordinator's part)
+    import mp_props
+    mp = mp_props.mem_vs_stream(ctx, vlib)
+    failing += mp["failing"]
+    diffs += mp["diffs"]
+    classes.update(mp["classes"])
+    nontriv += mp["evaluations"] // 2
+    return dict(evaluations=len(cases) + len(jl) + mp["evaluations"], distinct_nontrivial=nontriv, samples=samples, classes=classes,
                 failing=failing, diffs=diffs, known_lines=known,
-                rule="random sequences (<= 40) of the nine CBinaryStreamReader operations over data of length 0..3K (lengths and positions at K-1,K,K+1,2K-1,..,3K), boundary scripts for every squeeze size / window edge, the callers' ReadByChunks loop, x stream kinds {istringstream, short-read seekable streambuf 1..k bytes per underflow, non-seekable streambuf} x K in %s; every implementation trace on a seekable stream is additionally checked by the extracted reference reader; `is` ops validate the modelled istream; non-trivial = distinct case that refills the window or seeks" % ks,
+                rule="random sequences (<= 40) of the nine CBinaryStreamReader operations over data of length 0..3K (lengths and positions at K-1,K,K+1,2K-1,..,3K), boundary scripts for every squeeze size / window edge, the callers' ReadByChunks loop, x stream kinds {istringstream, short-read seekable streambuf 1..k bytes per underflow, non-seekable streambuf} x K in %s; every implementation trace on a seekable stream is additionally checked by the extracted reference reader; `is` ops validate the modelled istream; document level: MsgPack read sequences (every first byte x tails, random documents, truncations, corruptions, documents shifted across the chunk boundary by a leading string of every length around 0/256/512) through the string reader and the stream reader (chunk 256 and 8), which must agree with each other and with the MsgPack model; non-trivial = distinct case that refills the window or seeks" % ks,
                 exhaustive=False, broken="correspondence stream model (M-BSR / M-IS) vs binary_stream_reader.cpp (drv_stream)",
                 extra=dict(chunk_sizes=ks, hook=S.hook_present(vlib), reference_checked=len(jl), reference_rejected=len(rejected), corpus_lines_skipped_for_missing_hook=len(skipped)))
 
